@@ -43,7 +43,7 @@ CHECKS = {
    "Every write batch position of every generated history was answered 'outcome unknown' in both variants, plus three second-order variants on the repair write; the client always got an error, later writes flowed, compaction stayed below the unresolved revision, and after hook-observed quiescence store and event stream converged to the storage-boundary ground truth (event payloads included). Concurrent runs with paired unknown outcomes answered out of revision order and a continuous compactor sampled in every 4th history.",
    "unknown outcomes are injected at the storage.KvStorage boundary; retry intervals shortened through the verif hook"),
  "C19": ("exploration", "Go race detector over the concurrent workloads of the other checks (worker built with -race), reports deduplicated by innermost kubebrain function pair", "5 C19",
-   "No data race report with a kubebrain frame was produced while the concurrent workloads (writers, readers, watchers joining/leaving/overflowing, overflow with subscriber churn, catch-up from a small wrapping watch cache, compaction, async retry, lock candidates, follower taking over, leader/follower pair with the real revision syncer) ran under the race detector on memkv and Badger; counts of executions and report blocks in evidence.",
+   "No data race report with a kubebrain frame was produced while the concurrent workloads (writers, readers, watchers joining/leaving/overflowing, overflow with subscriber churn, catch-up from a small wrapping watch cache, two complete server.NewServer nodes under concurrent gRPC clients, compaction, async retry, lock candidates, follower taking over, leader/follower pair with the real revision syncer) ran under the race detector on memkv and Badger; counts of executions and report blocks in evidence.",
    "a race detector sees only executed interleavings; reports wholly inside the TiKV mock or the harness are listed, not counted"),
  "C14": ("exploration", "complete step-interleaving enumeration on memkv against a register model (lock-step) + porcupine linearizability check of recorded concurrent lock histories", "5 C14",
    "All interleavings of 2 and of 3 candidates x 2 acquire rounds, of 2 candidates retrying a rejected write without a fresh Get, and of 2-3 candidates ending with client-go's release (an Update naming no holder, without a fresh Get), were executed on memkv through the real resourcelock.Interface and agreed with a compare-and-swap register model step by step; sampled interleavings on Badger, the TiKV mock and locks obtained from real backends; recorded concurrent histories are linearizable as a CAS register (porcupine).",
